@@ -306,11 +306,15 @@ def run(pid, args, seed, work, t0):
         if prep['build_ok'] and not aud['forbidden'] else 0
     # ---- lanes
     lane_results = []
+    lane_hangs = []
     if reg['lanes']:
         if prep['driver_ok']:
             try:
                 ctx.gen = gen.Gen(seed, literals)
                 lane_results = run_lanes(ctx, reg['lanes'])
+            except real.GiveUp as e:
+                broken.append({'kind': 'lane', 'what': 'correspondence lanes abandoned, calls into pamqp hang: %s' % str(e)[:400], 'detail': real.HANGS[:3]})
+                lane_hangs = list(real.HANGS)
             except Exception as e:  # noqa
                 import traceback
                 traceback.print_exc()
@@ -324,9 +328,26 @@ def run(pid, args, seed, work, t0):
     # ---- oracle = failing-input search on the real code
     ctx.gen = gen.Gen(seed + 1000003, literals)
     results = []
+    gave_up = None
     for o in reg['oracles']:
-        results.append(getattr(oracles, 'oracle_' + o)(ctx))
-    if broken and not any(r.violations for r in results) and not ctx.thorough:
+        try:
+            real.HANGS.clear()
+            real.HANG_CALLS.clear()
+            results.append(getattr(oracles, 'oracle_' + o)(ctx))
+        except real.GiveUp as e:
+            gave_up = str(e)
+    if gave_up:
+        # calls into the real code do not return: for C08 that IS the violation, for the others the
+        # property can no longer be examined
+        r = oracles.Result('hang')
+        r.evaluations = 1
+        if pid == 'C08':
+            r.violation('decoding does not terminate within its deadline', dict(oracles.hang_replay(), calls=real.HANGS[:3]),
+                        'returns or raises', gave_up)
+        else:
+            broken.append({'kind': 'oracle', 'what': 'calls into pamqp hang: ' + gave_up[:400], 'detail': real.HANGS[:3]})
+        results.append(r)
+    if broken and not gave_up and not any(r.violations for r in results) and not ctx.thorough:
         # an obligation broke: widen the search before concluding that no failing input exists
         ctx.thorough = True
         ctx.exhaustive_versions = False
@@ -334,6 +355,13 @@ def run(pid, args, seed, work, t0):
         for o in reg['oracles']:
             results.append(getattr(oracles, 'oracle_' + o)(ctx))
         ctx.thorough = False
+    if pid == 'C08' and lane_hangs and not any(r.violations for r in results):
+        # a decoder call that does not return IS a failing input of C08, whichever lane met it
+        r = oracles.Result('lane-hang')
+        r.evaluations = len(lane_hangs)
+        r.violation('a decoder call does not terminate within its deadline', dict(oracles.hang_replay(), calls=lane_hangs[:3]),
+                    'returns or raises', lane_hangs[0])
+        results.append(r)
     known = load_known()
     viols = []
     for r in results:
